@@ -2,7 +2,9 @@
 """Run checks against every seeded change under /verif/seeded: scratch copy of /repo HEAD + git apply patch.diff,
 checks run with VERIF_REPO pointing at the copy.  Writes seeded/MATRIX.json.
 
-    tools/seeded_matrix.py [--props C01,C02,...] [--only NAME_PREFIX]
+    tools/seeded_matrix.py [--props C01,C02,...] [--only NAME_PREFIX] [--target] [--seeds 1,2,3]
+--target runs only the property a change was written against (the first three characters of its directory name);
+--seeds repeats every run at several VERIF_SEED values and records the exit code per seed (how robust the detection is).
 A patch that no longer applies to HEAD (the code it touched was repaired since) is reported as such.
 """
 import json
@@ -24,6 +26,10 @@ def main():
         props = sys.argv[sys.argv.index("--props") + 1].split(",")
     if "--only" in sys.argv:
         only = sys.argv[sys.argv.index("--only") + 1]
+    seeds = ["1"]
+    if "--seeds" in sys.argv:
+        seeds = sys.argv[sys.argv.index("--seeds") + 1].split(",")
+    target = "--target" in sys.argv
     out_path = os.path.join(HERE, "seeded", "MATRIX.json")
     res = json.load(open(out_path)) if os.path.exists(out_path) else {}
     for name in sorted(os.listdir(os.path.join(HERE, "seeded"))):
@@ -42,15 +48,20 @@ def main():
             row = res.setdefault(name, {})
             row["applies_to_head"] = True
             row.setdefault("checks", {})
-            for p in props:
+            for p in ([name[:3]] if target else props):
                 t0 = time.time()
-                env = dict(os.environ, VERIF_REPO=tmp, VERIF_SEED="1")
-                env.pop("_VERIF_PINNED", None)
-                r = subprocess.run([sys.executable, os.path.join(HERE, "run_check.py"), p, "--tier", "quick"],
-                                   capture_output=True, text=True, env=env, cwd=HERE)
-                viol = [l.split("bucket=")[-1] for l in r.stdout.splitlines() if l.startswith("VIOLATION")]
-                row["checks"][p] = {"exit": r.returncode, "violations": viol[:5], "wall_s": round(time.time() - t0, 1)}
-                print("%-48s %s exit=%d %s" % (name, p, r.returncode, viol[:2]), flush=True)
+                exits, viol = {}, []
+                for sd in seeds:
+                    env = dict(os.environ, VERIF_REPO=tmp, VERIF_SEED=sd)
+                    env.pop("_VERIF_PINNED", None)
+                    r = subprocess.run([sys.executable, os.path.join(HERE, "run_check.py"), p, "--tier", "quick"],
+                                       capture_output=True, text=True, env=env, cwd=HERE)
+                    exits[sd] = r.returncode
+                    viol += [l.split("bucket=")[-1] for l in r.stdout.splitlines() if l.startswith("VIOLATION")]
+                row["checks"][p] = {"exit": max(exits.values()) if 1 not in exits.values() else 1,
+                                    "exit_by_seed": exits, "violations": sorted(set(viol))[:5],
+                                    "wall_s": round(time.time() - t0, 1)}
+                print("%-48s %s exits=%s %s" % (name, p, exits, sorted(set(viol))[:2]), flush=True)
             row["caught_by"] = sorted(p for p, v in row["checks"].items() if v["exit"] == 1)
             json.dump(res, open(out_path, "w"), indent=1, sort_keys=True)
         finally:
